@@ -501,18 +501,21 @@ class IntervalTier(textgrid_tier.TextgridTier):
             interval.start, interval.end, CropCollision.LAX, False
         )._entries
 
+        # Times are stored as floats (as in the constructor)
+        newEntry = Interval(float(interval.start), float(interval.end), interval.label)
+
         if len(matchList) == 0:
-            self._entries.append(interval)
+            self._entries.append(newEntry)
 
         elif collisionMode == constants.IntervalCollision.REPLACE:
             for matchEntry in matchList:
                 self.deleteEntry(matchEntry)
-            self._entries.append(interval)
+            self._entries.append(newEntry)
 
         elif collisionMode == constants.IntervalCollision.MERGE:
             for matchEntry in matchList:
                 self.deleteEntry(matchEntry)
-            matchList.append(interval)
+            matchList.append(newEntry)
             matchList.sort()  # By starting time
 
             newInterval = Interval(
